@@ -327,10 +327,22 @@ def compare_answers(ctx, res, n_trees, tag):
                     if b"\n" in line[:-1] or b" " in rq.split(b"\r\n")[0] and p in ("gemini",):
                         pass
                     reqlist.append((p, gp, q, rq, line, rest))
+            # Gemini's own answers: a URL urlparse refuses, the query prefix without and with a query
+            qp = cfg.get("protocols.gemini.GeminiProtocol", "query_prefix") if cfg.has_option("protocols.gemini.GeminiProtocol", "query_prefix") else "/GEMINI-QUERY"
+            for raw in (b"gemini://[::1/x\r\n", b"gemini://h" + qp.encode() + b"/docs\r\n", b"gemini://h" + qp.encode() + b"/s%20x?two%20words&a=b\r\n",
+                        b"gemini://h" + qp.encode() + b"?q\r\n", b"gemini://h" + qp.encode() + b"/a?\r\n"):
+                reqlist.append(("gemini", "+", raw.decode("latin-1"), raw, raw, b""))
             enc = []
             for p, gp, q, rq, line, rest in reqlist:
                 rl = [x.decode("utf-8", "surrogateescape") for x in readlines(rest)] if p != "spartan" else [rest.decode("utf-8", "surrogateescape")]
-                enc.append(";".join(["T" if reqs.TLS[p] else "F", enc_str(line.decode("utf-8", "surrogateescape")), enc_list(rl)]))
+                fields = ["T" if reqs.TLS[p] else "F", enc_str(line.decode("utf-8", "surrogateescape")), enc_list(rl)]
+                if p == "gemini":
+                    import urllib.parse as _up
+                    try:
+                        _up.urlparse(line.decode("utf-8", "surrogateescape").strip())
+                    except ValueError:
+                        fields.append("I")        # urlparse refuses the line: the model's library oracle
+                enc.append(";".join(fields))
             if not enc:
                 continue
             linem = "\t".join(["answer", code or "-", st.titles(), enc_str(listing.SRV[0]), str(listing.SRV[1]),
